@@ -24,6 +24,10 @@
 // graph is built); every U-interested node publishes one message on U in every batch, and the check line carries the same
 // observations for U under "u" (judged per topic by NetTrace).
 //
+// Several measured topics: "clones":c adds the topics T2..T<c+1>; whatever the scenario does on T (roles, sub/cancel/relay/unrelay,
+// publications) is done on each of them in the same instant, so that one heartbeat's gossip has to advertise messages of
+// several topics to the same peer. The check line carries one observation record per clone under "clones".
+//
 // Backpressure: with "queue":q (small per-peer outbound queues) and "bulk":true (everybody subscribes to the bulk topic "B"
 // first), a churn operation may carry "burst":k: node a publishes k messages of 256 KiB on B and, in the same virtual
 // instant, performs the operation, so that the announcement of its new interest meets full outbound queues (the op line
@@ -102,6 +106,9 @@ type scenario struct {
 	// subscribes to the bulk topic "B" (never judged), on which the bursts of the operations are published
 	Queue int  `json:"queue"`
 	Bulk  bool `json:"bulk"`
+	// Clones: that many additional MEASURED topics "T2".."T<c+1>" on which every node takes the same roles and performs the
+	// same operations and publications as on T (same instant); each is observed and judged like T (check line: "clones")
+	Clones int `json:"clones"`
 }
 
 // smallParams: the scaled-down gossipsub parameters of spec/net (D=2, Dlo=1, Dhi=3, Dlazy=2).
@@ -191,21 +198,53 @@ func (c *counter) OnClosedOutboundStream(p peer.ID) {
 }
 func (c *counter) Join(string)  { c.mu.Lock(); c.note("join"); c.mu.Unlock() }
 func (c *counter) Leave(string) { c.mu.Lock(); c.note("leave"); c.mu.Unlock() }
-func b2i(b bool) int64 {
-	if b {
+
+// topicIdx: 1 = the topic under test, 0 = the unrelated topic U, n = the clone "T<n>", -1 = anything else (bulk).
+func topicIdx(tp string) int64 {
+	switch {
+	case tp == topicName:
 		return 1
+	case tp == topicU:
+		return 0
+	case len(tp) > 1 && tp[0] == 'T':
+		var n int64
+		if _, err := fmt.Sscanf(tp[1:], "%d", &n); err == nil {
+			return n
+		}
 	}
-	return 0
+	return -1
+}
+
+// msgPrefix / subPrefix: how payload names and subscription ids of a topic start ("m", "u", "c<n>x").
+func msgPrefix(tp string) string {
+	switch i := topicIdx(tp); {
+	case i == 1:
+		return "m"
+	case i == 0:
+		return "u"
+	default:
+		return fmt.Sprintf("c%dx", i)
+	}
+}
+func subPrefix(tp string) string {
+	switch i := topicIdx(tp); {
+	case i == 1:
+		return ""
+	case i == 0:
+		return "u"
+	default:
+		return fmt.Sprintf("c%d.", i)
+	}
 }
 func (c *counter) Graft(p peer.ID, tp string) {
 	c.mu.Lock()
-	c.mev = append(c.mev, [2]int64{hnet.NowMs(), b2i(tp == topicName)})
+	c.mev = append(c.mev, [2]int64{hnet.NowMs(), topicIdx(tp)})
 	c.note("graft %s %s", c.names.P(p), tp)
 	c.mu.Unlock()
 }
 func (c *counter) Prune(p peer.ID, tp string) {
 	c.mu.Lock()
-	c.mev = append(c.mev, [2]int64{hnet.NowMs(), b2i(tp == topicName)})
+	c.mev = append(c.mev, [2]int64{hnet.NowMs(), topicIdx(tp)})
 	c.note("prune %s %s", c.names.P(p), tp)
 	c.mu.Unlock()
 }
@@ -317,6 +356,7 @@ type world struct {
 	debug   bool
 	nextMsg map[string]int
 	twoTop  bool
+	clones  []string // names of the additional measured topics
 }
 
 func (w *world) node(i int) *node { return w.nodes[i-1] }
@@ -378,16 +418,9 @@ func (w *world) subscribe(n *node, tn string) {
 	}
 	st := n.st(tn)
 	st.nsub++
-	pre := ""
-	if tn != topicName {
-		pre = "u"
-	}
-	r := &subRec{id: fmt.Sprintf("%s%d.%d", pre, n.idx, st.nsub), sub: s, count: map[string]int{}, done: make(chan struct{})}
+	r := &subRec{id: fmt.Sprintf("%s%d.%d", subPrefix(tn), n.idx, st.nsub), sub: s, count: map[string]int{}, done: make(chan struct{})}
 	st.subs = append(st.subs, r)
-	want := byte('m')
-	if tn != topicName {
-		want = 'u'
-	}
+	want := msgPrefix(tn)
 	go func() {
 		defer close(r.done)
 		for {
@@ -397,7 +430,7 @@ func (w *world) subscribe(n *node, tn string) {
 			}
 			name := payloadName(m.GetData())
 			r.mu.Lock()
-			if name == "" || name[0] != want || m.GetTopic() != tn {
+			if name == "" || !strings.HasPrefix(name, want) || m.GetTopic() != tn {
 				r.other++
 			} else {
 				r.count[name]++
@@ -483,11 +516,7 @@ func (w *world) disconnect(a, b int) bool {
 // publish one distinguishable payload ("m<k>|..." on T, "u<k>|..." on U), padded to size bytes.
 func (w *world) publish(n *node, tn string, size int) string {
 	w.nextMsg[tn]++
-	pre := "m"
-	if tn != topicName {
-		pre = "u"
-	}
-	name := fmt.Sprintf("%s%d", pre, w.nextMsg[tn])
+	name := fmt.Sprintf("%s%d", msgPrefix(tn), w.nextMsg[tn])
 	data := []byte(name + "|from " + fmt.Sprint(n.idx))
 	if size > len(data) {
 		data = append(data, make([]byte, size-len(data))...)
@@ -794,8 +823,14 @@ func runScenario(t *testing.T, out *vh.Out, idx int, s scenario, debug bool) {
 				role(w.nodes[i], topicU, r)
 			}
 		}
+		for c := 0; c < s.Clones; c++ {
+			w.clones = append(w.clones, fmt.Sprintf("T%d", c+2))
+		}
 		for i, r := range s.Roles {
 			role(w.nodes[i], topicName, r)
+			for _, cn := range w.clones {
+				role(w.nodes[i], cn, r)
+			}
 		}
 		if !s.LateRoles {
 			for _, e := range s.Edges {
@@ -807,7 +842,7 @@ func runScenario(t *testing.T, out *vh.Out, idx int, s scenario, debug bool) {
 		if !w.twoTop {
 			uroles = []string{}
 		}
-		out.Emit(M{"e": "reset", "scn": idx, "n": s.N, "kinds": s.Kinds, "edges": w.wantEdges(), "roles": s.Roles, "uroles": uroles, "late_roles": s.LateRoles, "queue": s.Queue, "bulk": s.Bulk, "src": s.Src,
+		out.Emit(M{"e": "reset", "scn": idx, "n": s.N, "kinds": s.Kinds, "edges": w.wantEdges(), "roles": s.Roles, "uroles": uroles, "late_roles": s.LateRoles, "queue": s.Queue, "bulk": s.Bulk, "clones": s.Clones, "src": s.Src,
 			"params": M{"name": s.Params, "D": p.D, "Dlo": p.Dlo, "Dhi": p.Dhi, "Dlazy": p.Dlazy, "Dscore": p.Dscore, "Dout": p.Dout,
 				"RandomSubD": pubsub.RandomSubD, "pruneBackoffMs": p.PruneBackoff.Milliseconds(), "unsubBackoffMs": p.UnsubscribeBackoff.Milliseconds(),
 				"historyGossip": p.HistoryGossip, "historyLength": p.HistoryLength, "settleHb": w.settle, "fanoutTTLMs": p.FanoutTTL.Milliseconds(),
@@ -856,14 +891,26 @@ func runScenario(t *testing.T, out *vh.Out, idx int, s scenario, debug bool) {
 				switch o.Op {
 				case "sub":
 					w.subscribe(w.node(o.A), topicName)
+					for _, cn := range w.clones {
+						w.subscribe(w.node(o.A), cn)
+					}
 					ok = true
 				case "cancel":
 					ok = w.cancel(w.node(o.A), topicName)
+					for _, cn := range w.clones {
+						w.cancel(w.node(o.A), cn)
+					}
 				case "relay":
 					w.relay(w.node(o.A), topicName)
+					for _, cn := range w.clones {
+						w.relay(w.node(o.A), cn)
+					}
 					ok = true
 				case "unrelay":
 					ok = w.unrelay(w.node(o.A), topicName)
+					for _, cn := range w.clones {
+						w.unrelay(w.node(o.A), cn)
+					}
 				case "conn":
 					ok = w.connect(o.A, o.B)
 				case "disc":
@@ -904,6 +951,11 @@ func runScenario(t *testing.T, out *vh.Out, idx int, s scenario, debug bool) {
 			if w.twoTop {
 				preU = w.views(topicU)
 			}
+			preC := []M{}
+			cpubs := make([][]any, len(w.clones))
+			for _, cn := range w.clones {
+				preC = append(preC, w.views(cn))
+			}
 			real := w.realEdges()
 			for _, n := range w.nodes {
 				n.ctr.mu.Lock()
@@ -940,6 +992,9 @@ func runScenario(t *testing.T, out *vh.Out, idx int, s scenario, debug bool) {
 				for ; k < len(s.Ops) && s.Ops[k].Op == "pub"; k++ {
 					n := w.node(s.Ops[k].A)
 					pubs = append(pubs, M{"n": n.idx, "m": w.publish(n, topicName, 0)})
+					for ci, cn := range w.clones { // the same publication on every measured topic, same instant
+						cpubs[ci] = append(cpubs[ci], M{"n": n.idx, "m": w.publish(n, cn, 0)})
+					}
 				}
 				k--
 				if w.twoTop { // every U-interested node publishes on U in the same instant
@@ -955,6 +1010,10 @@ func runScenario(t *testing.T, out *vh.Out, idx int, s scenario, debug bool) {
 			var fanU any
 			if w.twoTop {
 				fanU = w.views(topicU)["fanout"]
+			}
+			fanC := []any{}
+			for _, cn := range w.clones {
+				fanC = append(fanC, w.views(cn)["fanout"])
 			}
 			// quiescence: eager push is over within milliseconds; lazy repair needs one IHAVE/IWANT round per
 			// gossip hop: wait 2N + HistoryGossip + 2 heartbeats
@@ -995,6 +1054,24 @@ func runScenario(t *testing.T, out *vh.Out, idx int, s scenario, debug bool) {
 			} else {
 				line["u"] = M{"pubs": []any{}}
 			}
+			cl := []any{}
+			for ci, cn := range w.clones {
+				postC := w.views(cn)
+				clive, cdead, cirel := w.liveDead(cn)
+				cps := cpubs[ci]
+				if cps == nil {
+					cps = []any{}
+				}
+				c := M{"topic": topicIdx(cn), "pubs": cps, "live": clive, "dead": cdead, "irelays": cirel, "deliv": w.deliveries(cn), "fanout1": fanC[ci],
+					"mesh1": postC["mesh"], "backoff1": postC["backoff"], "views1": postC["views"], "joined1": postC["joined"]}
+				for kk, v := range preC[ci] {
+					if kk != "peers" && kk != "protos" {
+						c[kk] = v
+					}
+				}
+				cl = append(cl, c)
+			}
+			line["clones"] = cl
 			if debug {
 				var lg []string
 				for _, n := range w.nodes {
